@@ -43,6 +43,9 @@ class Driver(GenericAdapter):
         return tc
 
     def variants(self, op):
+        if op["op"] == "update_counts" and self.name == "str":
+            # one call mixing the argument forms: mapping + keyword counts (a key in both adds up), iterable + keyword counts
+            return ["update_map", "update_kw", "update_map_kw", "update_iter_kw"]
         return ["add", "update_iter", "update_map", "update_kw" if self.name == "str" else "update_gen"]
 
     def step(self, tc, op, variant):
@@ -55,6 +58,13 @@ class Driver(GenericAdapter):
                 d = {K(k): c for k, c in op["kc"]}
                 if variant == "update_kw":
                     tc.update(None, **d)
+                elif variant == "update_map_kw":
+                    m_ = {k: c // 2 if i % 2 == 0 else c for i, (k, c) in enumerate(d.items())}
+                    kw_ = {k: c - m_[k] for k, c in d.items() if c - m_[k] > 0 or k in list(d)[:1]}
+                    tc.update({k: c for k, c in m_.items() if c > 0 or k not in kw_}, **kw_)
+                elif variant == "update_iter_kw":
+                    first = list(d.items())[:1]
+                    tc.update([k for k, c in first for _ in range(c // 2)], **{k: (c - c // 2 if (k, c) in first else c) for k, c in d.items()})
                 else:
                     tc.update(d)
             elif variant == "update_map" and len(ks) == 1:
@@ -327,7 +337,7 @@ def record(n, seed, thorough, harmonic_only=False, given=None):
                         kc.append([k, rng.randint(0, 3)])
                 op = {"op": "update_counts", "k": 0, "ks": [], "kc": kc}
             variant = rng.choice(drv.variants(op))
-            if op["op"] == "update_counts" and variant not in ("update_kw",):
+            if op["op"] == "update_counts" and variant not in ("update_kw", "update_map_kw", "update_iter_kw"):
                 variant = "update_map"
             tc, got = drv.step(tc, op, variant)
             full = (step % 25 == 0) or i >= len(s) or nkeys <= 12 or (kind == "harmonic" and nkeys <= 80)
